@@ -16,8 +16,9 @@ ASSUMPTIONS = ["fixedint UInt16/UInt12 wrap-around"]
 
 def cases(rng, tier):
     n = 300 if tier == "quick" else 4000
-    for _ in range(n):
-        yield toygen.image_case(rng, toygen.step_only, max_steps=rng.choice([5, 20, 60]))
+    for i in range(n):
+        c_ = toygen.image_case(rng, toygen.step_only, max_steps=rng.choice([5, 20, 60]))
+        yield toygen.as_text_case(c_) if i % 3 == 2 else c_          # every third image goes through the loader
     # short programs, every opcode, boundary operands (incl. one-instruction programs that branch to themselves, to the
     # word after the program and to 0xFFF), independent of the seed
     for n in (1, 2, 3):
@@ -38,7 +39,8 @@ def cases(rng, tier):
                 lines = ["toy.new", "toy.load " + " ".join(["5"] + [str(w) for w in words] + ["200:7"]), f"toy.accu {acc}", "toy.snap"]
                 for _ in range(6):
                     lines += ["toy.call step", "toy.snap"]
-                yield Case("toy-pairs", lines, None, {"n": 5, "words": words + [acc]})
+                c_ = Case("toy-pairs", lines, None, {"n": 5, "words": words + [acc]})
+                yield toygen.as_text_case(c_) if acc else c_
     if tier == "thorough":
         for w in range(0, 65536):
             acc = [0, 1, 0xFFFF, 0x8000, 0x1234][w % 5]
